@@ -23,7 +23,7 @@ type Edit struct {
 // EditKinds lists every kind EnumerateEdits can emit, in emission order.
 var EditKinds = []string{
 	"attr-permute", "quote-style", "empty-form", "tag-space", "comment-insert", "comment-split-text",
-	"pi-insert", "nsdecl-unused", "nsdecl-redundant", "nsdecl-hoist", "prolog", "cdata-wrap", "cdata-unwrap", "charref-text", "charref-attr",
+	"pi-insert", "nsdecl-unused", "nsdecl-redundant", "nsdecl-hoist", "nsdecl-shadowed-outer", "prolog", "cdata-wrap", "cdata-unwrap", "charref-text", "charref-attr",
 	"entity-numeric", "attr-ws-literal", "line-endings",
 	"text-change", "ws-text-change", "attr-value-change", "nsuri-change", "elem-rename", "attr-rename", "attr-delete",
 	"child-reorder", "elem-delete", "elem-duplicate", "b64-linebreak",
@@ -347,6 +347,29 @@ func EnumerateEdits(src []byte, visit func(Edit)) (int, error) {
 						np.Attrs = append(cloneAttrs(np.Attrs), Attr{Pre: " ", Name: a.Name, Quote: a.Quote, Raw: a.Raw})
 						c[pi] = np
 						emit("nsdecl-hoist", true, fmt.Sprintf("%s/@%s moved to the parent element", paths[i], a.Name), c)
+					}
+					// an OUTER binding of a prefix that this element (re)binds: the parent
+					// (and the root) get xmlns:p="urn:c19:outer" when p is not in scope
+					// there. Nothing between can use p, the inner binding governs
+					// everything below as before: meaning and canonical form are unchanged.
+					for _, a := range t.Attrs {
+						if !strings.HasPrefix(a.Name, "xmlns:") {
+							continue
+						}
+						if _, ok := inScope(a.Name[6:]); ok {
+							continue
+						}
+						targets := []int{parentStart[len(parentStart)-1]}
+						if parentStart[0] != targets[0] {
+							targets = append(targets, parentStart[0])
+						}
+						for _, pi := range targets {
+							c := cloneToks(toks)
+							np := toks[pi]
+							np.Attrs = append(cloneAttrs(np.Attrs), Attr{Pre: " ", Name: a.Name, Quote: '"', Raw: "urn:c19:outer"})
+							c[pi] = np
+							emit("nsdecl-shadowed-outer", true, fmt.Sprintf("%s gets %s=\"urn:c19:outer\", re-bound below at %s", paths[pi], a.Name, paths[i]), c)
+						}
 					}
 					// default-namespace declaration moved to the parent when that
 					// changes no name: the parent's own name is prefixed, it declares
